@@ -584,7 +584,7 @@ func CollidingNames() []string {
 	for _, p := range pairs {
 		a, b := p[0], p[1]
 		out = append(out,
-			"var "+a+" = 1\nprint "+b,                                        // b is undefined
+			"var "+a+" = 1\nprint "+b, // b is undefined
 			"var "+a+" = 1\ndef blk { "+b+" = 2; print "+a+"; print "+b+"; g = "+a+" + "+b+" }\nprint "+a, // b is a field
 			"var "+a+" = 1\nvar "+b+" = 2\n"+a+" = 10\nprint "+a+" + "+b+"\ndef blk { "+a+" = "+b+"; x = "+a+" }\nprint "+a,
 			"def blk { "+a+" = 1; def in { "+b+" = 2; r = "+a+"; s = "+b+" }; t = "+a+" }",
@@ -607,6 +607,58 @@ func BlockValueOps() []string {
 			out = append(out, "def a {\n"+kid+"\n"+u+"\n}\nprint 1")
 			out = append(out, "def a {\ndef b {\n"+kid+"\n}\ndef c {\n"+kid+"\n"+strings.ReplaceAll(u, "k == k", "k == k")+"\n}\n}")
 		}
+	}
+	return out
+}
+
+// DenseFamilies: the sizes IN BETWEEN the boundaries. ScaledFamilies puts members just below / at / above every
+// limit and size class that is known; a slip whose own boundary lies somewhere else (a fast path for "short" strings, a
+// table that grows at 100 entries, a counter that wraps at 1000, a buffer of 1500 bytes) shows only at a size nobody
+// listed. Here every length / count from 0 up to a bound is a member: string constants, leading line ends, leading
+// blanks, constants in the pool, local variables, code bytes, and every integer constant value 0..70000.
+func DenseFamilies(thorough bool) []Scaled {
+	var out []Scaled
+	add := func(name, src string) { out = append(out, Scaled{Name: name, Src: src}) }
+	N, M := 1300, 330
+	if thorough {
+		N, M = 6000, 1100
+	}
+	for L := 0; L <= N; L++ {
+		add(fmt.Sprintf("dense-strlen-%d", L), `var s = "`+rep("s", L)+`"`+"\nprint s == s\ndef b { f = s + 1 }")
+		add(fmt.Sprintf("dense-padnl-%d", L), rep("\n", L)+"def a{}; bind a->struct\nbind a->slice\nprint 1 + \"a\" - 2")
+		add(fmt.Sprintf("dense-padsp-%d", L), rep(" ", L)+"def a{}; bind a->struct; bind a->slice; print 1/0")
+	}
+	var cs, vs strings.Builder
+	for n := 1; n <= M; n++ {
+		fmt.Fprintf(&cs, "print %d\n", n+1)
+		fmt.Fprintf(&vs, "var v%d=%d\n", n-1, n+1)
+		add(fmt.Sprintf("dense-consts-%d", n), cs.String()+"def blk \"nm\" { fld = 5; print fld + TYPE }\nbind blk -> struct\nbind blk:last -> slice\nprint 1 + nil\n")
+		add(fmt.Sprintf("dense-locals-%d", n), vs.String()+fmt.Sprintf("def blk { var w = v%d; x = w + v0; eval w = 7; y = w }\nprint v%d\nbind blk -> struct\nprint v0 - \"s\"\n", n-1, n-1))
+		add(fmt.Sprintf("dense-code-%d", n), rep("print 1\n", n)+"print false and 2 + 3 * 4\ndef b { x = nil or 2 + 3 }\nprint 0 or 1/0\n")
+	}
+	// every integer constant 0..70000 (all one- and two-byte and the first three-byte encodings), 2500 per program
+	for k := 0; k*2500 <= 70000; k++ {
+		var b strings.Builder
+		for v := k * 2500; v < (k+1)*2500; v++ {
+			fmt.Fprintf(&b, "print %d\n", v)
+		}
+		add(fmt.Sprintf("dense-ints-%d", k), b.String())
+	}
+	// many distinct identifiers, some used again (tables keyed by identifier: capacity, eviction, rehashing)
+	for _, n := range []int{1000, 2500, 6000, 20000} {
+		if n > 6000 && !thorough {
+			continue
+		}
+		var b strings.Builder
+		b.WriteString("def wide {\n")
+		for i := 0; i < n; i++ {
+			fmt.Fprintf(&b, " f%d = %d\n", i, i%7)
+		}
+		for i := 0; i < n; i += n / 50 {
+			fmt.Fprintf(&b, " g%d = f%d + f%d\n", i, i, (i*7)%n)
+		}
+		b.WriteString("}\n")
+		add(fmt.Sprintf("dense-idents-%d", n), b.String())
 	}
 	return out
 }
